@@ -212,6 +212,10 @@ func checkC05(c *Check) {
 		})
 	}
 
+	// the injector's read path (Value / Invoke / Apply) reaches the shared application scope through the
+	// parent link at request time, so it must not write at all
+	c.Share("C04", []string{"R7"}, 3)
+
 	// ---- R4 freshness
 	c.Rule("R4", "E3 freshness", "contexts, response writers, injectors, params maps and the per-request handler slice are allocations of the current activation; no sync.Pool in the request phase", 5)
 	for _, spec := range []struct{ pkg, recv, name string }{
